@@ -27,6 +27,7 @@ type wsConn struct {
 	serv        *Service
 	subs        map[string]*Subscription
 	disposing   bool
+	closing     bool
 	mqSub       mq.Unsubscriber
 	connStr     string
 	protocolVer int
@@ -96,7 +97,15 @@ func (c *wsConn) listen(ws *websocket.Conn) {
 	var in []byte
 	var err error
 
+	// Set the websocket, unless Disconnect was called while the connection
+	// was still being upgraded, in which case it is closed right away.
+	c.mu.Lock()
 	c.ws = ws
+	closing := c.closing
+	c.mu.Unlock()
+	if closing {
+		ws.Close()
+	}
 
 	// Loop until an error is returned when reading
 	for {
@@ -184,9 +193,13 @@ func (c *wsConn) Tracef(format string, v ...interface{}) {
 
 // Disconnect closes the websocket connection.
 func (c *wsConn) Disconnect(reason string) {
-	if c.ws != nil {
+	c.mu.Lock()
+	c.closing = true
+	ws := c.ws
+	c.mu.Unlock()
+	if ws != nil {
 		c.Tracef("Disconnecting - %s", reason)
-		c.ws.Close()
+		ws.Close()
 	}
 }
 
